@@ -1,7 +1,7 @@
 SPECIFICATION Spec
 CONSTANTS
   MaxHist = 3
-  TripleIds = {"t1", "t2", "t3"}
+  TripleIds = {"t1", "t2", "t3", "t4"}
   Policy = "lazy"
   EmitAll = TRUE
 INVARIANTS Inv Emit
